@@ -9,11 +9,11 @@ HOOKS = {
 }
 
 ENGINES_DOC = [
-    {"name": "spec", "path": "spec/", "serves_properties": ["C01", "C02", "C03", "C04", "C07", "C08", "C17", "C05", "C06", "C10", "C11", "C12", "C13", "C14", "C15", "C16"],
+    {"name": "spec", "path": "spec/", "serves_properties": ["C01", "C02", "C03", "C04", "C07", "C08", "C09", "C17", "C20", "C05", "C06", "C10", "C11", "C12", "C13", "C14", "C15", "C16"],
      "kind_free_text": "TLA+ modules (single source of truth) checked with TLC"},
-    {"name": "harness", "path": "harness/", "serves_properties": ["C01", "C02", "C03", "C04", "C07", "C08", "C17", "C05", "C06", "C10", "C11", "C12", "C13", "C14", "C15", "C16"],
+    {"name": "harness", "path": "harness/", "serves_properties": ["C01", "C02", "C03", "C04", "C07", "C08", "C09", "C17", "C20", "C05", "C06", "C10", "C11", "C12", "C13", "C14", "C15", "C16"],
      "kind_free_text": "Rust conformance harness: replays TLC-generated behaviours on the real code, records traces/rows for TLC to judge"},
-    {"name": "orchestrator", "path": "bin/check", "serves_properties": ["C01", "C02", "C03", "C04", "C07", "C08", "C17", "C05", "C06", "C10", "C11", "C12", "C13", "C14", "C15", "C16"],
+    {"name": "orchestrator", "path": "bin/check", "serves_properties": ["C01", "C02", "C03", "C04", "C07", "C08", "C09", "C17", "C20", "C05", "C06", "C10", "C11", "C12", "C13", "C14", "C15", "C16"],
      "kind_free_text": "python3 driver: build, TLC, replay/validation, evidence, exit code"},
 ]
 
@@ -153,7 +153,25 @@ CHECKS.update({
     },
 })
 
+_RESP_TECH = "TLA+ specification of 488.2 response syntax with an independent decoder per kind (Resp); TLC judges rows recorded from ResponseData / derived enums"
+CHECKS.update({
+    "C09": {
+        "engine": "spec",
+        "text": "Resp.tla decodes every emitted text independently (NR1, #H/#Q/#B, NRf with the exact-decimal rounding interval of the original float, SCPI NaN/inf sentinels, quoted strings with doubled quotes, definite blocks whose header states the payload length, character/expression data, comma lists, `code,\"message[;ext]\"` items, enum mnemonics that match their own variant and no other) and requires the denoted value to equal the formatted one; the row also records whether the library's own parser maps the text back. ~24k rows quick (8-bit exhaustive, 16-bit strided, boundary/random 32/64-bit, floats over every exponent, strings over a quote/separator alphabet and every ASCII byte, blocks around every length-digit boundary, all standard errors, 9 enums).",
+        "design_ref": "DESIGN.md 3 C09",
+        "note": "Known finding (not repairable small): strings containing '\"' come back raw from the library's own parser. Float text is judged against NRf syntax; the full 2^32 f32 sweep is not included.",
+        "technique": _RESP_TECH,
+    },
+    "C20": {
+        "engine": "spec",
+        "text": "For 9 derived enums (unit and single-field variants, suffix siblings, nested short forms) TLC computes, with Mnemonic!Matches, the variant every candidate character datum designates; from_mnemonic and TryFrom<Token> must agree exactly (-224 for no variant, -104 for every other element type), each variant must report its own mnemonic, and its response text must select the same variant and no other.",
+        "design_ref": "DESIGN.md 3 C20",
+        "note": "The enum family is fixed at compile time; candidates: every prefix x case x 8 suffix spellings, single edits, random strings.",
+        "technique": _RESP_TECH,
+    },
+})
+
 NOT_APPLICABLE = [
     {"property_id": p, "reason": "check under construction in this round (see DESIGN.md 6, construction order); not yet claimed"}
-    for p in ["C09", "C18", "C19", "C20"]
+    for p in ["C18", "C19"]
 ]
